@@ -175,3 +175,66 @@ def reachable_states(rnd, g, sd, ncmds):
             continue
         states.append(sim.rows)
     return states
+
+
+# ----------------------------------------------------------------------------- end-to-end script directories
+
+ENV_PY = '''
+from alembic import context
+from sqlalchemy import create_engine
+config = context.config
+def run():
+    engine = create_engine(config.get_main_option("sqlalchemy.url"))
+    with engine.connect() as connection:
+        context.configure(connection=connection, target_metadata=None)
+        with context.begin_transaction():
+            context.run_migrations()
+run()
+'''
+
+REV_PY = '''
+revision = {rev!r}
+down_revision = {down!r}
+branch_labels = {labels!r}
+depends_on = {deps!r}
+LOG = {log!r}
+def upgrade():
+    open(LOG, "a").write("up " + revision + "\\n")
+def downgrade():
+    open(LOG, "a").write("down " + revision + "\\n")
+'''
+
+
+def materialize(g, root):
+    """write a real script directory for the human graph under root; returns (Config, logpath, dbpath)"""
+    import os
+    from alembic.config import Config
+    sdir = os.path.join(root, "scripts")
+    os.makedirs(os.path.join(sdir, "versions"))
+    open(os.path.join(sdir, "env.py"), "w").write(ENV_PY)
+    open(os.path.join(sdir, "script.py.mako"), "w").write("")
+    log = os.path.join(root, "log.txt")
+    db = os.path.join(root, "db.sqlite")
+    def tup(xs):
+        xs = list(xs)
+        return None if not xs else (xs[0] if len(xs) == 1 else tuple(xs))
+    for i, r in enumerate(g):
+        open(os.path.join(sdir, "versions", "%03d_%s.py" % (i, r["name"])), "w").write(REV_PY.format(
+            rev=r["name"], down=tup(r["down"]), labels=tup(r.get("labels", ())), deps=tup(r.get("deps", ())), log=log))
+    cfg = Config()
+    cfg.set_main_option("script_location", sdir)
+    cfg.set_main_option("sqlalchemy.url", "sqlite:///" + db)
+    return cfg, log, db
+
+
+def db_rows(db):
+    import sqlite3, os
+    if not os.path.exists(db):
+        return []
+    con = sqlite3.connect(db)
+    try:
+        return [r[0] for r in con.execute("select version_num from alembic_version")]
+    except sqlite3.OperationalError:
+        return []
+    finally:
+        con.close()
